@@ -858,12 +858,11 @@ def run_sweep(ctx, ns, seed, only=None):
                     require(child.mat.shape[1] == n, "harness:progeny-count", lambda: f"{child.mat.shape}")
                     co = observe(model, child)
                     acc = co.bad + check_edge(model, po, co, f"{proto}.mate")
-                    if co.fixed:
-                        ctx.flag("S:edge-child-fixed")
-                    else:
-                        ctx.flag("S:edge-child-polymorphic")
                     _raise(acc)
                 ctx.evaluations += 1
+                # by construction (no-crossover answers): selfing / DH give n copies of one homozygote, the two-way
+                # cross of different parents gives n identical heterozygotes
+                ctx.flag("S:edge-child-polymorphic" if proto == "TwoWayCross" else "S:edge-child-fixed")
                 if guard(ctx, body3, case, f"{proto}.mate:"):
                     ctx.traces += 1
         ctx.state(digest(("S", n)))
